@@ -570,10 +570,7 @@ def run(ctx):
             rq = roles.entry(P, "router", "query")
             d = common.dispatch(P, rq, ctx.N.query_enum("router"))
             region = common.region_of_edge(rq.body, d[variant])
-            hs = [(b, P.fn(p) or P.fn(generic_path(p))) for b, p, fr, t in P.calls(rq) if b in region and roles.is_workspace_fn(P, p)]
-            if len(hs) != 1:
-                raise AnchorMissing("router query arm %s calls %d workspace functions" % (variant, len(hs)))
-            fold = hs[0][1]
+            fold = roles.arm_handler(P, rq, region, "router query arm %s" % variant)[1]
         except (AnchorMissing, KeyError, TypeError) as e:
             r8.fail("C13.R8:anchor:%s" % variant, "-", "-", "anchor-missing: %s" % e)
             continue
